@@ -11,6 +11,7 @@ from __future__ import annotations
 
 import asyncio
 import math
+import re
 from datetime import timedelta
 from fractions import Fraction as Fr
 from typing import Any
@@ -457,7 +458,7 @@ def _build_string(case: dict[str, Any], rig: _Rig) -> None:
         )
 
         pool = FormulaEnginePool("ns", registry, sub.new_sender())
-        ranked: list[tuple[int, str]] = [(2, text.replace("(", "").replace(")", ""))]
+        ranked: list[tuple[float, str]] = [(2, text.replace("(", "").replace(")", ""))]
         stack: list[int] = []
         for pos, ch in enumerate(text):      # ... and the text with one pair of parentheses removed
             if ch == "(":
@@ -469,11 +470,13 @@ def _build_string(case: dict[str, Any], rig: _Rig) -> None:
                 # pairs that change the meaning come first: a group right of '/' or '-', or one holding a weaker operator
                 rank = 0 if before.endswith(("/", "-")) else 1 if before.endswith("*") and ("+" in inner or "-" in inner) else 3
                 ranked.append((rank, text[:start] + inner + text[pos + 1:]))
+        # ... each also the way one would normally type it (no blanks inside parentheses, one around each operator)
+        ranked += [(rank + 0.5, re.sub(r"([-+*/])", r" \1 ", re.sub(r"\s+", "", d))) for rank, d in list(ranked)]
         decoys = []
         for _, d in sorted(ranked):
             if d != text and d not in decoys:
                 decoys.append(d)
-        for decoy in decoys[:3]:
+        for decoy in decoys[:6]:
             rig.keep.append(pool.from_string(decoy, ComponentMetricId.ACTIVE_POWER, nones_are_zeros=case["global_zero"]))
             rig.keep.append(str(rig.keep[-1]))
         rig.engine = pool.from_string(text, ComponentMetricId.ACTIVE_POWER, nones_are_zeros=case["global_zero"])
